@@ -30,4 +30,10 @@ theorem C17_tgen_manifest_consts :
     Extracted.manifestDeletionsRewriteThreshold = 10000 ∧ Extracted.manifestDeletionsRatio = 10 ∧
     Extracted.op_manifest_rewrite_threshold = ">" := by decide
 
+/-- C20: the streaming header decoder reads two single bytes and three uvarints, in this order, from
+    the hashing reader (`C20_header_decodeFrom` is proved for exactly these reads; a bare `Read` of
+    two bytes returns one at a refill boundary of the `bufio.Reader` — seed C20e). -/
+theorem C20_tgen_header_decodefrom : Extracted.ord_header_decodefrom_reads = "ascending" ∧
+    Extracted.has_iterate_bufio = "yes" := by decide
+
 end Badger
